@@ -709,9 +709,15 @@ class PVLParser(object):
         ``set`` objects are non-hashable, they cannot be members of a set,
         however, ``frozenset`` objects can.
         """
-        return frozenset(
-            self._parse_set_seq(self.grammar.set_delimiters, tokens)
-        )
+        elements = self._parse_set_seq(self.grammar.set_delimiters, tokens)
+        try:
+            return frozenset(elements)
+        except TypeError as err:
+            self._throw(
+                tokens,
+                "This Set contains a Sequence, which cannot be an element "
+                f"of a Python frozenset ({err})."
+            )
 
     def parse_sequence(self, tokens: abc.Generator) -> list:
         """Parses a PVL Sequence.
@@ -883,7 +889,15 @@ class ODLParser(PVLParser):
         can be represented as a Python ``set`` (unlike PVL Sets,
         which must be represented as a Python ``frozenset`` objects).
         """
-        return set(self._parse_set_seq(self.grammar.set_delimiters, tokens))
+        elements = self._parse_set_seq(self.grammar.set_delimiters, tokens)
+        try:
+            return set(elements)
+        except TypeError as err:
+            self._throw(
+                tokens,
+                "This Set contains a Sequence, which cannot be an element "
+                f"of a Python set ({err})."
+            )
 
     def parse_units(self, value, tokens: abc.Generator) -> str:
         """Extends the parent function, since ODL only allows units
